@@ -18,7 +18,6 @@ import (
 	"github.com/prometheus/client_golang/prometheus"
 	pb "github.com/prometheus/client_model/go"
 
-	"github.com/obolnetwork/charon/app/promauto"
 	"github.com/obolnetwork/charon/testutil/beaconmock"
 
 	"verifharness/drv"
@@ -33,14 +32,15 @@ var (
 	reg     *prometheus.Registry
 )
 
-// registry holds every metric charon's packages created through app/promauto (the process-wide gauges the components set).
+// registry holds the process-wide metrics the observed components set (see link.go).
 func registry(t *testing.T) *prometheus.Registry {
 	regOnce.Do(func() {
-		r, err := promauto.NewRegistry(nil)
-		if err != nil {
-			t.Fatalf("registry: %v", err)
+		reg = prometheus.NewRegistry()
+		for _, c := range []prometheus.Collector{readyzGaugeVar, checkGaugeVar, checkFailedVar, highCardinalityVar} {
+			if err := reg.Register(c); err != nil {
+				t.Fatalf("registry: %v", err)
+			}
 		}
-		reg = r
 	})
 
 	return reg
